@@ -7,7 +7,7 @@ import rgrun
 import vlib
 
 META = {
-    "text": "TLC computes per (pattern, options) and catalogue line whether the line is selected and its successive matches (Printer.tla). The catalogue is split over several files (with and without a final terminator); from the spec's data the expected per-file --count, --count-matches, number of --only-matching records, JSON submatch totals, --files-with-matches / --files-without-match sets, --quiet status and --stats totals are derived, also under -m N, and every mode of the real rg is compared with them, and the match totals of --count-matches, -o and --json also with each other (observed against observed); the same under -U for patterns that stay line-oriented, on files of one unterminated line (mmap and reader), and on CR-terminated content without --crlf.",
+    "text": "TLC computes per (pattern, options) and catalogue line whether the line is selected and its successive matches (Printer.tla). The catalogue is split over several files (with and without a final terminator); from the spec's data the expected per-file --count, --count-matches, number of --only-matching records, JSON submatch totals, --files-with-matches / --files-without-match sets, --quiet status and --stats totals are derived, also under -m N, and every mode of the real rg is compared with them, and the match totals of --count-matches, -o and --json also with each other (observed against observed); the same under -U for patterns that stay line-oriented, on files of one unterminated line (mmap and reader), and on CR-terminated content without --crlf. The --stats totals are checked for the summary printer (-c, -l, --files-without-match, 1 and 4 threads), for the standard printer and for the JSON summary message (against the sum of the end messages).",
     "note": "Patterns bounded by specs/regex/MCPrinter.tla; lines with a multi-byte character are excluded from match counting for patterns that match the empty string; -U agreement is covered through C13/C09.",
     "technique": "TLA+ executable semantics enumerated by TLC, replayed on the rg binary in eight reporting modes",
 }
